@@ -297,7 +297,7 @@ Definition abort_chan (m : mgr) (u : Z) : mgr :=
           let m3 := wres_opt m2 (c_dw c) O_RESULT in
           hupd m3 u (fun c => flush_output (set_dw (set_cw c None) None))
       | KCl =>
-          let closing := match c_st c with SOpen | SWaitDisconnect => true | _ => false end in
+          let closing := match c_st c with SOpen | SWaitDisconnect | SOrphan => true | _ => false end in
           let m1 := if closing then on_channel_closed (hupd m u (fun c => set_st c SClosed)) u c
                     else m in
           let m2 := wres_opt m1 (c_dw c) O_RESULT in
